@@ -36,7 +36,7 @@ func cfg(id string) propCfg {
 	switch id {
 	case "C18":
 		c.race = true
-		c.quickShards = 4
+		c.quickShards = 8
 	case "C19", "C20", "C15":
 		c.quickShards = 8
 	}
